@@ -135,6 +135,11 @@ def run_harnesses(hs, repo, verif, jobs=4):
     by_feat = {}
     for h in hs:
         by_feat.setdefault(h.get('features', FEATURES_DEFAULT), []).append(h)
+    import fcntl
+    os.makedirs(os.path.join(verif, '.cache'), exist_ok=True)
+    # one check at a time in the shared Kani target directory (harness runs inside this check still go in parallel)
+    kani_lock = open(os.path.join(verif, '.cache', 'kani.lock'), 'w')
+    fcntl.flock(kani_lock, fcntl.LOCK_EX)
     for feat, group in by_feat.items():
         scratch = _scratch(repo)
         try:
@@ -164,9 +169,12 @@ def run_harnesses(hs, repo, verif, jobs=4):
                     with open(os.path.join(scratch, h['append_to']), 'a') as f:
                         f.write('\n' + code)
                     env2 = dict(os.environ, CARGO_NET_OFFLINE='true', CARGO_TARGET_DIR=os.path.join(verif, '.cache', 'target'), RUST_BACKTRACE='0')
-                    rc = subprocess.run(['cargo', 'test', '--offline', '--lib', '--no-default-features', '--features',
-                                         'serializer,xml,RfsmExpressionModel', h.get('replay_filter', 'verif_replay_cex'), '--', '--test-threads', '1'],
-                                        cwd=scratch, env=env2, stdout=subprocess.PIPE, stderr=subprocess.STDOUT, text=True, timeout=900)
+                    import fcntl
+                    with open(os.path.join(verif, '.cache', 'cargo-test.lock'), 'w') as lk:
+                        fcntl.flock(lk, fcntl.LOCK_EX)
+                        rc = subprocess.run(['cargo', 'test', '--offline', '--lib', '--no-default-features', '--features',
+                                             'serializer,xml,RfsmExpressionModel', h.get('replay_filter', 'verif_replay_cex'), '--', '--test-threads', '1'],
+                                            cwd=scratch, env=env2, stdout=subprocess.PIPE, stderr=subprocess.STDOUT, text=True, timeout=900)
                     pm = re.search(r"panicked at [^\n]*:\n([^\n]*)", rc.stdout)
                     r['replay'] = dict(test_code=code, failed=('test result: FAILED' in rc.stdout),
                                        message=pm.group(1)[:500] if pm else None,
@@ -174,6 +182,7 @@ def run_harnesses(hs, repo, verif, jobs=4):
             results += rs
         finally:
             shutil.rmtree(scratch, ignore_errors=True)
+    kani_lock.close()
     return results
 
 
